@@ -49,6 +49,15 @@ def cases_for(tier):
                 for first in ('replay', 'fan', 'cb'):
                     cases.append(dict(shape='single', tail=list(tail), d=d, flush='----F',
                                       branch=[first] + ['opret'] * d, limit=d, activation=act))
+    # forks low in a short chain (the search for the fork point works back from the tip in
+    # windows of doubling size: the window that reaches genesis, forks directly after genesis)
+    low = ['fan', 'old', 'new', 'chain2', 'multi', 'old', 'new', 'fan', 'old']
+    for height in range(1, 10):
+        for d in range(1, height + 1):
+            for limit in (d, 200):
+                for first in ('replay', 'cb'):
+                    cases.append(dict(shape='single', prefix=[], tail=low[:height], d=d,
+                                      branch=[first] + ['new'] * d, flush='', limit=limit))
     # the server restarted between indexing and the reorganisation, and reorganisations that
     # reach below the block files still kept on disk (deep fork on a longer chain)
     for tail in (tails[::6] if q else tails):
